@@ -259,3 +259,10 @@ ENTRIES += [
     B('js-linked-dropped', JS, "LinkContext(link, inline=inline, linked=not inline,", "LinkContext(link, inline=inline,", 'C20-D5b'),
     N('js-linked-always', JS, "LinkContext(link, inline=inline, linked=not inline,", "LinkContext(link, inline=inline, linked=True,"),
 ]
+
+HT = 'wpull/scraper/html.py'
+ENTRIES += [
+    B('walker-table-entry-without-flag', HT, "        'form': {'action': ATTR_HTML},", "        'form': {'action': 0},", 'C20-D5b'),
+    B('walker-fallbacks-overlap', HT, "            return attr_flags & cls.ATTR_HTML\n\n        return attribute == 'href'", "            return attr_flags & cls.ATTR_HTML\n\n        return attribute == 'src'", 'C20-D5b'),
+    N('walker-table-both-flags', HT, "        'form': {'action': ATTR_HTML},", "        'form': {'action': ATTR_INLINE | ATTR_HTML},"),
+]
